@@ -120,6 +120,11 @@ def main(prop="C12"):
     run = Run(prop, "model_checking", "CH")
     hs = harnesses(tier())
     ch.run_harnesses(run, hs)
+    # the harnesses drive the mode plumbing on a two-instruction stream; here the real engine runs on long listings with a
+    # long occurrence across power-of-two record borders: first-match must stay the one-element prefix of all-matches
+    from checks import c11
+
+    c11.long_match_probe(run, key="modes_agree_long")
     cov = {
         "states": len(hs),
         "transitions": run.counts.get("harness_runs", 0),
